@@ -245,7 +245,6 @@ theorem groupbyCols_paths (k0 : KeyCol) (ks : List KeyCol) (hint : Bool) (n : Na
       · exact (keysSorted_spec k0.data (ks.map (·.data)) n hrect').1 h
     refine ⟨List.range n, none, Perm.refl _, range_sorted_index _ n hsorted, Or.inl ⟨rfl, rfl⟩, ?_⟩
     rw [if_pos hb, colSpans_spec k0.data (ks.map (·.data)) n hrect']
-    simp only [map_cons]
     rw [colsAlong_range _ n hrect']
   · rw [if_neg hb]
     obtain ⟨idx, hidx, hperm, hs⟩ := datasetSortIndex_spec k0.data (ks.map (·.data)) n (fun c hc => hrect' c hc)
@@ -269,6 +268,6 @@ theorem groupbyCols_hint_irrelevant (k0 : KeyCol) (ks : List KeyCol) (n : Nat)
     (keysSorted_spec k0.data (ks.map (·.data)) n hrect').2 (by simpa using hsorted)
   unfold groupbyCols
   rw [readKeys_ok k0 ks n hrect]
-  simp only [map_cons, hs, Bool.true_or, Bool.or_true]
+  simp only [map_cons, hs, Bool.or_true]
 
 end Exetera.GroupBy
